@@ -40,6 +40,18 @@ pub const REFS: &[(&str, &str, &str)] = &[
   ("no-window-prefix", "window", "$.addEventListener(\"x\", g);"),
   // only the bare-identifier handler of prefer-primordials is scope-aware; its member-expression and `new` handlers
   // flag e.g. `const { JSON } = primordials; JSON.parse()` on purpose (the rule's own tests say so)
+  // the global is one of several assignment targets, after a locally bound one (every target is checked on its own)
+  ("no-global-assign", "Object", "let q1; [q1, $] = [1, 2];"),
+  ("no-global-assign", "Array", "let q2; ({ q2, $ } = {});"),
+  ("no-global-assign", "String", "let q3; [{ q3 }, ...$] = [];"),
+  ("no-global-assign", "Number", "$++;"),
+  ("no-obj-calls", "Math", "f($());"),
+  ("no-new-symbol", "Symbol", "f(new $());"),
+  ("no-window", "window", "f(q4, $.x);"),
+  ("no-console", "console", "q5 ? $.log(1) : $.warn(2);"),
+  ("no-process-global", "process", "[q6, $.env.X];"),
+  ("no-node-globals", "clearImmediate", "$(1);"),
+  ("no-deprecated-deno-api", "Deno", "let q7: $.File;"),
   ("prefer-primordials", "isNaN", "$(1);"),
   ("prefer-primordials", "parseInt", "g($);"),
 ];
@@ -146,7 +158,10 @@ fn run_c14(out: &mut Out, rng: &mut Rng, count: usize) {
       _ => continue,
     };
     if alone.is_empty() {
+      // every entry of the table is a reference the rule is known to report: silence here is the "does report" half
+      // of the property failing
       out.count(&format!("baseline-silent:{}:{}", rule, name));
+      out.found("C14", &format!("unbound-reference-not-reported:{}:alone", rule), &reference, json!({"meta": {"rule": rule, "name": name, "src": reference}}));
       continue;
     }
     let depth = rng.below(4);
